@@ -39,4 +39,113 @@ def WFDataset (d : List (DQuad β)) : Prop := ∀ q ∈ d, wfQuad q = true
 
 instance (d : List (DQuad β)) : Decidable (WFDataset d) := by unfold WFDataset; exact inferInstance
 
+/-! ### the encoder: hypotheses and certificate -/
+
+section Encoder
+variable [DecidableEq β]
+open RdfModel.JLEnc
+
+/-- the dataset lives in the default graph (the encoder drops named graphs) -/
+def defaultGraphOnly (d : List (DQuad β)) : Bool := d.all (fun q => q.g.isNone)
+
+/-- the encoder writes this literal as a native JSON number or boolean -/
+def isNativeLit : Term β → Bool
+  | .lit lex dt none =>
+    (dt == xsdInteger && isNativeInteger lex) || (dt == xsdDouble && isNativeDouble lex) ||
+    (dt == xsdBoolean && (lex == asc "true" || lex == asc "false"))
+  | _ => false
+
+/-- no literal of a datatype the encoder may write natively (xsd:integer, xsd:double, xsd:boolean) -/
+def noNativeTyped (d : List (DQuad β)) : Bool :=
+  d.all (fun q => match q.t.o with
+    | .lit _ dt _ => !(dt == xsdInteger || dt == xsdDouble || dt == xsdBoolean)
+    | _ => true)
+
+/-- every IRI of a term (its datatype for a literal) -/
+def termIris : Term β → List Str
+  | .iri v => [v]
+  | .bnode _ => []
+  | .lit _ dt _ => [dt]
+
+def quadIris (q : DQuad β) : List Str :=
+  termIris q.t.s ++ [q.t.p] ++ termIris q.t.o ++ (match q.g with | some g => termIris g | none => [])
+
+/-- finding C10-K2: some IRI of the dataset has, before its first colon, the name of a prefix the
+    encoder may declare, and is not followed by `//`: written in full it is read back as a compact IRI
+    once that prefix is in the `@context` -/
+def schemeClash (cfg : Cfg β) (d : List (DQuad β)) : Bool :=
+  d.any fun q => (quadIris q).any fun v =>
+    match splitColon v with
+    | some (p, s) => s.take 2 != [cSlash, cSlash] && (cfg.prefixes.filter isPrefixTerm).any (fun m => m.1 == p)
+    | none => false
+
+/-- statements of an exported resource with the blank node each inlined resource was made from -/
+inductive TStmt (β : Type) where
+  | obj (p : Str) (o : Term β)
+  | anon (b : β) (p : Str) (stmts : List (TStmt β))
+
+/-- `ExportResourceStatements` (default options) keeping the inlined blank nodes -/
+def exportT (B : Builder β) : Nat → Term β → Option (List (TStmt β))
+  | 0, _ => none
+  | fuel + 1, s =>
+    mapOpt (fun (po : PO β) =>
+      match po.2 with
+      | .bnode b =>
+        if B.refCount b == 1 then (exportT B fuel po.2).map (TStmt.anon b po.1)
+        else some (TStmt.obj po.1 po.2)
+      | _ => some (TStmt.obj po.1 po.2)) (B.stmts s)
+
+/-- the member name under which the encoder files a statement (`@type`, or the compacted predicate) -/
+def encKey (E : Enc) (p : Str) (o : Option (Term β)) : Str :=
+  match o with
+  | some (.iri _) => if p = rdfType then kType else (compactVocabIRI E p).1
+  | _ => (compactVocabIRI E p).1
+
+mutual
+/-- the tree of a statement list: statements grouped by member name in order of first occurrence, as
+    `buildResource` does -/
+def groupsOf (E : Enc) : List (TStmt β) → List (Str × Str × List (Tree β)) → List (Str × Str × List (Tree β))
+  | [], acc => acc
+  | .obj p o :: rest, acc =>
+    groupsOf E rest (alUpd (p, []) (fun e => (e.1, e.2 ++ [Tree.term o])) acc (encKey E p (some o)))
+  | .anon b p l :: rest, acc =>
+    let inner := groupsOf E l []
+    groupsOf E rest (alUpd (p, []) (fun e => (e.1, e.2 ++ [Tree.node (.anon b) (inner.map (·.2))])) acc
+      (encKey E p (none : Option (Term β))))
+end
+
+/-- the forest the encoder's document is expected to denote (the certificate): one default-graph block
+    with a node object per exported resource, in the order `ord` -/
+def encForest (cfg : Cfg β) (d : List (DQuad β)) (ord : List (Term β)) : Option (Forest β) :=
+  let E := mkEnc cfg
+  let D := dbuild d
+  if !D.graphNames.contains none then some [] else
+  let B := D.builder none
+  (mapOpt (fun (s : Term β) =>
+    (exportT B (d.length + 1) s).map fun st =>
+      let id : NodeId β :=
+        match s with
+        | .iri v => .iri v
+        | .bnode b => if B.refCount b == 0 then .anon b else .named b
+        | .lit _ _ _ => .iri []
+      Tree.node id ((groupsOf E st []).map (·.2))) (B.roots Opts.default ord)).map fun ns => [(none, ns)]
+
+/-- the counter at which the entries of the encoder's document start: a single item is the document
+    itself, several items sit in an `@graph` whose wrapper takes a blank node first -/
+def encStart (F : Forest β) : Nat :=
+  match F with
+  | [(_, [_])] => 0
+  | _ => 1
+
+/-- The certificate of the encoder theorem: the forest validates against the dataset, and the fragment
+    semantics reads the encoder's document as exactly that forest. Decidable; the driver evaluates it
+    for every case of the harness (op `jl.cert`). -/
+def encCert (mode11 : Bool) (base : Option Str) (cfg : Cfg β) (d : List (DQuad β)) (ord : List (Term β)) : Bool :=
+  match encode cfg d ord, encForest cfg d ord with
+  | some doc, some F =>
+    forestOK F d && decide (toRdf mode11 base doc = some (denForest cfg.label F (encStart F)).1)
+  | _, _ => false
+
+end Encoder
+
 end RdfModel.C10
